@@ -121,9 +121,12 @@ CenterOK(s, n, c2) == LET ix == IndexSet(AsSlice(s), n) IN
 
 \* "padding grows a region by the given amount clamped to the array"
 Grown(ix, n, pad) == {i \in 0..(n - 1) : \E j \in ix : Abs(i - j) <= pad}
+\* an EMPTY region k:k (0 <= k <= n, written with plain non-negative numbers) still has a place: grown by pad it is the interval [k - pad, k + pad) clamped
+EmptyAt(s, n) == ~IsInt(s) /\ s.step = <<>> /\ s.start # <<>> /\ s.stop # <<>> /\ s.start = s.stop /\ 0 <= s.start[1] /\ s.start[1] <= n
 PadOK(s, n, pad, o) ==
   IF ~WellFormed(o) THEN "not_a_closed_slice"
   ELSE IF ~(0 <= o.start[1] /\ o.stop[1] <= n) THEN "outside_array"
+  ELSE IF EmptyAt(s, n) THEN (IF o.start[1] = Max2(0, s.start[1] - pad) /\ o.stop[1] = Min2(n, s.start[1] + pad) THEN "ok" ELSE "empty_region_not_grown_by_pad")
   ELSE IF IndexSet(o, n) # Grown(IndexSet(s, n), n, pad) THEN "not_grown_by_pad"
   ELSE "ok"
 
@@ -177,7 +180,7 @@ Specified(c) ==
     [] c.op = "center" -> \A i \in DOMAIN c.axes : LET x == c.axes[i] IN
           ~IsErr(NormOrErr(x.s)) /\ NormOrErr(x.s).stop[1] <= x.n /\ IndexSet(AsSlice(x.s), x.n) # {}
     [] c.op = "pad" -> \A i \in DOMAIN c.axes : LET x == c.axes[i] IN
-          IntInRange(x.s, x.n) /\ IndexSet(x.s, x.n) # {} /\ (~IsInt(x.s) => x.s.step = <<>>)
+          IntInRange(x.s, x.n) /\ (IndexSet(x.s, x.n) # {} \/ EmptyAt(x.s, x.n)) /\ (~IsInt(x.s) => x.s.step = <<>>)
     [] OTHER -> TRUE
 
 \* outputs computed by the transcription, in the same shape the harness logs them
